@@ -244,11 +244,13 @@ func (w *Writer) DeleteNode(x *skiplist.Node) (success bool) {
 		}
 	}()
 
-	x.SetLink(nil)
 	sn := w.GetCurrSn()
 	gotItem := (*Item)(x.Item())
 	if gotItem.bornSn == sn {
 		success = w.store.DeleteNode(x, w.insCmp, w.buf, &w.slSts1)
+		if success {
+			x.SetLink(nil)
+		}
 
 		barrier := w.store.GetAccesBarrier()
 		barrier.FlushSession(unsafe.Pointer(x))
@@ -257,6 +259,7 @@ func (w *Writer) DeleteNode(x *skiplist.Node) (success bool) {
 
 	success = atomic.CompareAndSwapUint32(&gotItem.deadSn, 0, sn)
 	if success {
+		x.SetLink(nil)
 		if w.gctail == nil {
 			w.gctail = x
 			w.gchead = w.gctail
